@@ -1,17 +1,302 @@
-//! module `faults` — streams `faults.*` (not built yet).
+//! module `faults` — C04: target errors stop drawing immediately and are returned unchanged.
+//!
+//!   faults.shape <shape> <style> <adapter> <native 0|1>
+//!   faults.text <font 0..2> <colour mask> <align> <codepoints> <adapter> <native>
+//!   faults.image <bits 1|8|16> <w> <h> <sub 0|1|2> <adapter> <native>
+//!
+//! adapter: 0 none, 1 clipped, 2 translated, 3 cropped, 4 clipped(translated), 5 translated(cropped(clipped)),
+//!          6 color_converted (text/1-bpp images only: BinaryColor drawable on an Rgb565 target)
+//!
+//! For each op: the fault-free run on the recording target gives n calls and a call log; then for
+//! every k < n (all k when n <= 48, else the first 16, the last 16 and 16 spread ones) the run in
+//! which the k-th call of the underlying target fails must (a) return exactly that error value
+//! `TErr(k)`, (b) make no further call, (c) have made exactly the first k calls of the fault-free log.
 use crate::common::*;
+use crate::shapes::*;
+use crate::with_shape;
+use embedded_graphics::{
+    image::{Image, ImageDrawableExt, ImageRaw},
+    mono_font::{ascii, MonoTextStyleBuilder},
+    pixelcolor::{BinaryColor, Gray8, Rgb565},
+    prelude::*,
+    primitives::{Rectangle, Styled},
+    text::{Alignment, Text},
+};
 
 pub struct M;
+
+struct Outcome {
+    n: usize,
+    tested: usize,
+}
+
+/// `$mk` builds a fresh recording target, `$draw` draws onto `&mut impl DrawTarget<Color = Rgb565>`
+/// through the adapter stack and returns `Result<_, TErr>`.
+macro_rules! fault_runs {
+    ($ctx:expr, $kind:expr, $T:ident, $adapter:expr, $d:ident => $body:expr) => {{
+        let tb = Rectangle::new(Point::new(-40, -40), Size::new(120, 120));
+        let clip = Rectangle::new(Point::new(-3, -2), Size::new(30, 25));
+        let run = |fail_at: Option<usize>| {
+            let mut t = $T::<Rgb565>::new(tb);
+            t.rec.fail_at = fail_at;
+            let r: Result<(), TErr> = match $adapter {
+                0 => {
+                    let $d = &mut t;
+                    $body.map(|_| ())
+                }
+                1 => {
+                    let $d = &mut t.clipped(&clip);
+                    $body.map(|_| ())
+                }
+                2 => {
+                    let $d = &mut t.translated(Point::new(4, -3));
+                    $body.map(|_| ())
+                }
+                3 => {
+                    let $d = &mut t.cropped(&clip);
+                    $body.map(|_| ())
+                }
+                4 => {
+                    let mut tr = t.translated(Point::new(4, -3));
+                    let $d = &mut tr.clipped(&clip);
+                    $body.map(|_| ())
+                }
+                _ => {
+                    let mut a = t.clipped(&clip);
+                    let mut b = a.cropped(&Rectangle::new(Point::new(1, 1), Size::new(20, 20)));
+                    let $d = &mut b.translated(Point::new(-2, 5));
+                    $body.map(|_| ())
+                }
+            };
+            (r, t.rec)
+        };
+        let (r0, rec0) = run(None);
+        $ctx.expect(r0.is_ok(), &format!("C04:fault-free-run-fails:{}", $kind), || format!("{:?}", r0));
+        let n = rec0.calls;
+        let ks: Vec<usize> = if n <= 48 {
+            (0..n).collect()
+        } else {
+            let mut v: Vec<usize> = (0..16).collect();
+            v.extend(n - 16..n);
+            v.extend((1..=16).map(|i| 16 + i * (n - 32) / 17));
+            v.sort();
+            v.dedup();
+            v
+        };
+        for &k in &ks {
+            let (r, rec) = run(Some(k));
+            $ctx.expect(r == Err(TErr(k)), &format!("C04:error-not-returned:{}", $kind), || format!("call {} of {} failed with TErr({}), draw returned {:?}", k, n, k, r));
+            $ctx.expect(rec.calls == k + 1 && rec.calls_after_error == 0, &format!("C04:call-after-error:{}", $kind), || {
+                format!("call {} of {} failed; {} call(s) were made afterwards", k, n, rec.calls.saturating_sub(k + 1))
+            });
+            $ctx.expect(rec.log.len() == k && rec.log[..] == rec0.log[..k.min(rec0.log.len())], &format!("C04:prefix-differs:{}", $kind), || {
+                format!("call {} of {} failed; the {} successful call(s) before it are not the first {} of the fault-free run", k, n, rec.log.len(), k)
+            });
+        }
+        Outcome { n, tested: ks.len() }
+    }};
+}
 
 impl Module for M {
     fn name(&self) -> &'static str {
         "faults"
     }
     fn rule(&self) -> &'static str {
-        "not built yet"
+        "every styled primitive kind (grid of sizes/styles), text (3 fonts, colour/decoration masks, alignments, multi-line) and images/sub-images, \
+         each through 6-7 adapter stacks on a draw_iter-only and a native-fill recording target; for each, the k-th underlying call is failed for every k \
+         (all k when the fault-free run makes <= 48 calls, else 48 selected). Non-trivial: the fault-free run makes at least 2 calls; distinct = op text."
     }
-    fn generate(&self, _pid: &str, _tier: Tier, _rng: &mut Rng, _emit: &mut dyn FnMut(String)) {}
-    fn execute(&self, op: &str, _ctx: &mut Ctx) -> String {
-        panic!("unknown op {}", op)
+
+    fn generate(&self, _pid: &str, tier: Tier, rng: &mut Rng, emit: &mut dyn FnMut(String)) {
+        let quick = tier == Tier::Quick;
+        let angles = [(0, 90_000), (30_000, 200_000), (-45_000, -300_000), (10_000, 400_000)];
+        let shapes = shape_grid(if quick { 4 } else { 7 }, 3, &angles);
+        let styles = style_grid(if quick { &[0, 1, 3] } else { &[0, 1, 2, 3, 6] });
+        let mut i = 0usize;
+        for sh in &shapes {
+            for st in &styles {
+                // rotate adapters / target kinds over the grid (every shape kind meets every adapter)
+                i += 1;
+                if quick && sh.starts_with("line") && i % 3 != 0 {
+                    continue;
+                }
+                emit(format!("faults.shape {} {} {} {}", sh, st, i % 6, (i / 6) % 2));
+            }
+        }
+        let n = if quick { 400 } else { 10_000 };
+        for _ in 0..n {
+            emit(format!("faults.shape {} {} {} {}", random_shape(rng, 20, 24), random_style(rng, 6), rng.below(6), rng.below(2)));
+        }
+        let strings: [&[u32]; 7] = [&[], &[65], &[65, 66, 32, 67], &[72, 105, 10, 33], &[10, 10], &[65, 13, 10, 66, 10], &[0x1F600, 65]];
+        for font in 0..3 {
+            for mask in 0..16 {
+                for (si, s) in strings.iter().enumerate() {
+                    for adapter in 0..7 {
+                        if quick && (font + mask + si + adapter) % 3 != 0 {
+                            continue;
+                        }
+                        emit(format!("faults.text {} {} {} {} {} {}", font, mask, (mask + si) % 3, fmt_list(s.iter()), adapter, (mask + adapter) % 2));
+                    }
+                }
+            }
+        }
+        for bits in [1, 8, 16] {
+            for (w, h) in [(0, 0), (1, 1), (5, 3), (8, 2), (9, 4)] {
+                for sub in 0..3 {
+                    for adapter in 0..7 {
+                        for native in 0..2 {
+                            if adapter == 6 && bits != 1 {
+                                continue;
+                            }
+                            emit(format!("faults.image {} {} {} {} {} {}", bits, w, h, sub, adapter, native));
+                        }
+                    }
+                }
+            }
+        }
+    }
+
+    fn execute(&self, op: &str, ctx: &mut Ctx) -> String {
+        let mut t = Toks::new(op);
+        let stream = t.str();
+        let out = match stream {
+            "faults.shape" => {
+                let shape = Shape::parse(&mut t);
+                let style = parse_style(&mut t);
+                let adapter = t.u32();
+                let native = t.u32() == 1;
+                let kind = shape.kind();
+                ctx.count(&format!("shape:{}:adapter{}", kind, adapter));
+                with_shape!(&shape, p => {
+                    let s = Styled::new(p.clone(), style);
+                    if native {
+                        fault_runs!(ctx, kind, R2, adapter, d => s.draw(d))
+                    } else {
+                        fault_runs!(ctx, kind, R1, adapter, d => s.draw(d))
+                    }
+                })
+            }
+            "faults.text" => {
+                let font = [&ascii::FONT_4X6, &ascii::FONT_6X10, &ascii::FONT_9X15][t.usize()];
+                let mask = t.u32();
+                let align = [Alignment::Left, Alignment::Center, Alignment::Right][t.usize()];
+                let s: String = t.u32_list().into_iter().map(|c| char::from_u32(c).unwrap_or('?')).collect();
+                let adapter = t.u32();
+                let native = t.u32() == 1;
+                ctx.count(&format!("text:adapter{}", adapter));
+                macro_rules! style_of {
+                    ($c:ty, $a:expr, $b:expr, $d:expr) => {{
+                        let mut b = MonoTextStyleBuilder::<$c>::new().font(font);
+                        if mask & 1 != 0 {
+                            b = b.text_color($a);
+                        }
+                        if mask & 2 != 0 {
+                            b = b.background_color($b);
+                        }
+                        if mask & 4 != 0 {
+                            b = b.underline();
+                        }
+                        if mask & 8 != 0 {
+                            b = b.strikethrough_with_color($d);
+                        }
+                        b.build()
+                    }};
+                }
+                if adapter == 6 {
+                    // BinaryColor text drawn through color_converted() onto the Rgb565 target
+                    let text = Text::with_alignment(&s, Point::new(3, 9), style_of!(BinaryColor, BinaryColor::On, BinaryColor::Off, BinaryColor::On), align);
+                    if native {
+                        fault_runs!(ctx, "text", R2, 0, d => text.draw(&mut d.color_converted()))
+                    } else {
+                        fault_runs!(ctx, "text", R1, 0, d => text.draw(&mut d.color_converted()))
+                    }
+                } else {
+                    let text = Text::with_alignment(&s, Point::new(3, 9), style_of!(Rgb565, Rgb565::new(1, 2, 3), Rgb565::new(3, 2, 1), Rgb565::new(9, 9, 9)), align);
+                    if native {
+                        fault_runs!(ctx, "text", R2, adapter, d => text.draw(d))
+                    } else {
+                        fault_runs!(ctx, "text", R1, adapter, d => text.draw(d))
+                    }
+                }
+            }
+            "faults.image" => {
+                let bits = t.u32();
+                let size = t.size();
+                let sub = t.u32();
+                let adapter = t.u32();
+                let native = t.u32() == 1;
+                ctx.count(&format!("image:{}bpp:sub{}:adapter{}", bits, sub, adapter));
+                let bpr = (size.width as usize * bits as usize + 7) / 8;
+                let data: Vec<u8> = (0..bpr * size.height as usize).map(|i| (i * 37 + 11) as u8).collect();
+                let a1 = Rectangle::new(Point::new(1, 0), Size::new(3, 2));
+                let a2 = Rectangle::new(Point::new(1, 1), Size::new(4, 4));
+                macro_rules! go {
+                    ($c:ty, $conv:expr) => {{
+                        let raw = ImageRaw::<$c>::new(&data, size).unwrap();
+                        let s1 = raw.sub_image(&a1);
+                        let s2 = s1.sub_image(&a2);
+                        macro_rules! with_img {
+                            ($im:expr) => {{
+                                let im = $im;
+                                if $conv {
+                                    if native {
+                                        fault_runs!(ctx, "image", R2, 0, d => im.draw(&mut d.color_converted()))
+                                    } else {
+                                        fault_runs!(ctx, "image", R1, 0, d => im.draw(&mut d.color_converted()))
+                                    }
+                                } else {
+                                    unreachable!()
+                                }
+                            }};
+                        }
+                        match sub {
+                            0 => with_img!(Image::new(&raw, Point::new(2, 3))),
+                            1 => with_img!(Image::new(&s1, Point::new(2, 3))),
+                            _ => with_img!(Image::with_center(&s2, Point::new(2, 3))),
+                        }
+                    }};
+                }
+                macro_rules! go_rgb {
+                    () => {{
+                        let raw = ImageRaw::<Rgb565>::new(&data, size).unwrap();
+                        let s1 = raw.sub_image(&a1);
+                        let s2 = s1.sub_image(&a2);
+                        macro_rules! with_img {
+                            ($im:expr) => {{
+                                let im = $im;
+                                if native {
+                                    fault_runs!(ctx, "image", R2, adapter, d => im.draw(d))
+                                } else {
+                                    fault_runs!(ctx, "image", R1, adapter, d => im.draw(d))
+                                }
+                            }};
+                        }
+                        match sub {
+                            0 => with_img!(Image::new(&raw, Point::new(2, 3))),
+                            1 => with_img!(Image::new(&s1, Point::new(2, 3))),
+                            _ => with_img!(Image::with_center(&s2, Point::new(2, 3))),
+                        }
+                    }};
+                }
+                match bits {
+                    1 => go!(BinaryColor, true),
+                    8 => go!(Gray8, true),
+                    _ => go_rgb!(),
+                }
+            }
+            other => panic!("unknown op {}", other),
+        };
+        if out.n >= 2 {
+            ctx.nontrivial(op);
+        }
+        ctx.count_n("fault-runs", out.tested as u64);
+        ctx.count(match out.n {
+            0 => "calls:0",
+            1 => "calls:1",
+            2..=8 => "calls:2-8",
+            9..=48 => "calls:9-48",
+            _ => "calls:49+",
+        });
+        format!("n={} tested={}", out.n, out.tested)
     }
 }
